@@ -1,10 +1,12 @@
 import Gsd.Driver.C01
 import Gsd.Driver.C06
 import Gsd.Driver.C07
+import Gsd.Driver.C13
 
 def main (args : List String) : IO UInt32 := do
   match args with
   | "C01" :: rest => Gsd.Driver.C01.main rest
   | "C06" :: rest => Gsd.Driver.C06.main rest
   | "C07" :: rest => Gsd.Driver.C07.main rest
+  | "C13" :: rest => Gsd.Driver.C13.main rest
   | _ => IO.eprintln "usage: gsdmodel <Cxx> (model|spec)"; return 2
